@@ -37,7 +37,7 @@ def build_pool(rng, quick):
             pool.append((f"auth/{kind}/badkey-{nm}", "auth", p2, a))
     # registration specs (incl. RP-supplied roots for the built-in-root formats: argument aliasing)
     for fmt in regsim.FORMATS:
-        for variant in ("ok", "rp-only", "untrusted", "fault"):
+        for variant in ("ok", "rp-only", "untrusted", "fault", "ok-later", "expired"):
             s = regsim.RScn(fmt, "ES256-P256")
             s.n_inter = 0 if fmt == "fido-u2f" else 1
             if variant == "rp-only":
@@ -49,9 +49,15 @@ def build_pool(rng, quick):
                 if fmt not in regsim.X5C_FORMATS:
                     continue
                 s.roots_mode = "none"
+            if variant in ("ok-later", "expired"):
+                # the very response of "ok" presented at another clock (inside / outside the certificates' validity): the verdict follows
+                # the clock of THIS call whatever an earlier call established
+                if fmt not in regsim.X5C_FORMATS or fmt == "android-safetynet":
+                    continue
+                s.now = T0 + (3 * regsim.DAY if variant == "ok-later" else 400 * regsim.DAY)
             if variant == "fault":
                 regcat.c_challenge_other(s, rng)
-            if fmt in ("packed", "tpm", "fido-u2f") and variant == "ok":
+            if fmt in ("packed", "tpm", "fido-u2f") and variant in ("ok", "ok-later", "expired"):
                 s.roots_mode = "several"
             s.exp_origin = [s.origin, "https://second.example"]
             s.algs = [-7, -257, -8]
@@ -101,15 +107,21 @@ def run_spec(spec, O=None, R=None):
             kw["exclude_credentials"] = [PublicKeyCredentialDescriptor(id=b"x" * 8, transports=[AuthenticatorTransport.USB])]
         if j == 2:
             kw["supported_pub_key_algs"] = [webauthn.helpers.cose.COSEAlgorithmIdentifier.ECDSA_SHA_256]
-        res = webauthn.generate_registration_options(**kw)
-        out = "OK " + json.dumps(json.loads(webauthn.options_to_json(res)), sort_keys=True)
+        try:
+            res = webauthn.generate_registration_options(**kw)
+            out = "OK " + json.dumps(json.loads(webauthn.options_to_json(res)), sort_keys=True)
+        except Exception as e:
+            out = "ERR " + fw.classify_exc(e)
     else:
         j = int(key.split("/")[1])
         kw = dict(rp_id="example.com", challenge=b"d" * 16)
         if j == 1:
             kw["allow_credentials"] = [PublicKeyCredentialDescriptor(id=b"y" * 8)]
-        res = webauthn.generate_authentication_options(**kw)
-        out = "OK " + json.dumps(json.loads(webauthn.options_to_json(res)), sort_keys=True)
+        try:
+            res = webauthn.generate_authentication_options(**kw)
+            out = "OK " + json.dumps(json.loads(webauthn.options_to_json(res)), sort_keys=True)
+        except Exception as e:
+            out = "ERR " + fw.classify_exc(e)
     return out, viol, res
 
 
@@ -161,7 +173,7 @@ def run(tier, seed):
     def one(spec, pos, hist):
         key, kind, pol, obj = spec
         sub = pol.substitute if kind == "reg" else None
-        with impl.substituted(sub, T0):
+        with impl.substituted(sub, pol.now if kind == "reg" else T0):
             out, viol, res = run_spec(spec)
         chk.evals += 1
         for v in viol:
@@ -190,7 +202,7 @@ def run(tier, seed):
         if pid == 0:
             try:
                 os.close(rfd)
-                with impl.substituted(pol.substitute if kind == "reg" else None, T0):
+                with impl.substituted(pol.substitute if kind == "reg" else None, pol.now if kind == "reg" else T0):
                     out = run_spec(spec)[0]
                 os.write(wfd, out.encode("utf-8", "replace"))
             finally:
@@ -242,7 +254,7 @@ def run(tier, seed):
             if spec[0] not in first:
                 first[spec[0]] = run_spec(spec)[0]
         # rp-only / untrusted specs of the built-in-root formats substitute an UNRELATED built-in anchor: exclude them from the threaded run (different module-global substitution)
-        calls = [s for s in calls if "rp-only" not in s[0] and not (s[0].endswith("/untrusted") and s[0].split("/")[1] in ("apple", "android-key", "android-safetynet"))]
+        calls = [s for s in calls if "rp-only" not in s[0] and not s[0].endswith(("/ok-later", "/expired")) and not (s[0].endswith("/untrusted") and s[0].split("/")[1] in ("apple", "android-key", "android-safetynet"))]
         ths = [threading.Thread(target=worker, args=(t,)) for t in range(16)]
         for t in ths:
             t.start()
